@@ -1,8 +1,11 @@
 (* C01 — facts about one PodCache (a list of entries) and about the list of all cached pod ids. *)
 From Coq Require Import List ZArith Bool Lia.
-From Verif Require Import Lib.Vec2 C01.Model C01.Spec C01.Proofs_Base.
+From Verif Require Import Lib.VecN C01.Model C01.Spec C01.Proofs_Base.
 Import ListNotations.
 Open Scope Z_scope.
+
+Section WithDim.
+Context {D : Dim}.
 
 Definition ids (ps : list pinfo) : list Z := map pi_id ps.
 
@@ -227,3 +230,5 @@ Proof.
   unfold ids. rewrite !map_app, !cnt_app. cbn [map]. unfold cnt at 4. cbn [count_occ].
   fold (cnt x (map pi_id ps2)). destruct (Z.eq_dec (pi_id pi) x); lia.
 Qed.
+
+End WithDim.
